@@ -222,6 +222,10 @@ def run(ck: core.Check):
             ck.samples.append(r["sample"])
         for b in r["bad"]:
             if b["sheets"] is None:
+                if len(ck.violations) >= 2:
+                    ck.violation("compiled flow is not closed / document not well-formed (not shrunk): " + "; ".join(b["problems"][:2]),
+                                 {"csv": rows_to_csv(G.HEADERS, b["rows"]) + "#" * 2000, "rows": b["rows"], "problems": b["problems"]})
+                    continue
                 rows, probs = shrink_rows(drv, b["rows"])
                 if is_f_c01_a(rows, probs or []):
                     ck.known("F-C01-a", "same _nodeId on an action row and a following router row: duplicate node uuid", None)
